@@ -15,7 +15,7 @@ import json
 
 from harness import common
 
-MODULES = ['CirqVerif.Props.C05', 'CirqVerif.Props.C05Concat']
+MODULES = ['CirqVerif.Props.C05', 'CirqVerif.Props.C05Concat', 'CirqVerif.Props.C05Lookup']
 STRATS = ['earliest', 'new', 'inline', 'new_then_inline', 'latest']
 NQ = 4
 KEYS = 2
